@@ -822,7 +822,7 @@ func (fr *Frame) mapUpdate(i *ssa.MapUpdate, st *State) {
 	domK, valK, vs, ok := mapKeys(i.Map.Type())
 	dom := vc.getGlob(st, domK, SArrIAB)
 	vc.eng.noteGlobSort(domK, SArrIAB)
-	if !ok || !kok || m.S == "" {
+	if !kok || m.S == "" || k.Sort != SInt {
 		// abstract: domain of this map becomes unknown
 		if m.S != "" {
 			st.setGlob(domK, Sto(dom, m, vc.fresh("dom", SArrIB)))
@@ -834,6 +834,10 @@ func (fr *Frame) mapUpdate(i *ssa.MapUpdate, st *State) {
 	d1 := vc.name("d", Sto(d0, k, tTrue))
 	vc.assert(T{fmt.Sprintf("(and (= (card %s) (+ (card %s) (ite (select %s %s) 0 1))) (>= (card %s) 0))", d1.S, d0.S, d0.S, k.S, d0.S), SBool})
 	st.setGlob(domK, vc.name(domK, Sto(dom, m, d1)))
+	if !ok {
+		// composite values (structs): the domain is tracked exactly, the stored values are not
+		return
+	}
 	va := vc.getGlob(st, valK, arrOf(arrOf(vs)))
 	vc.eng.noteGlobSort(valK, arrOf(arrOf(vs)))
 	v, vok := fr.val(i.Value).(T)
@@ -945,11 +949,14 @@ func (fr *Frame) rangeNext(i *ssa.Next, cond T, st *State) Val {
 	m, _ := fr.val(rng.X).(T)
 	domK, valK, vs, ok := mapKeys(rng.X.Type())
 	mt := rng.X.Type().Underlying().(*types.Map)
-	if !ok || m.S == "" {
+	if ks, kok := leafSort(mt.Key()); m.S == "" || !kok || ks != SInt {
 		return vc.freshVal(i.Type(), "next")
 	}
 	dom := vc.getGlob(st, domK, SArrIAB)
-	va := vc.getGlob(st, valK, arrOf(arrOf(vs)))
+	var va T
+	if ok {
+		va = vc.getGlob(st, valK, arrOf(arrOf(vs)))
+	}
 	vis := vc.getGlob(st, key, SArrIB)
 	okv := vc.fresh("rok", SBool)
 	k := vc.fresh("rk", SInt)
@@ -963,6 +970,10 @@ func (fr *Frame) rangeNext(i *ssa.Next, cond T, st *State) Val {
 	vcnt := vc.getGlob(st, ck, SInt)
 	st.setGlob(ik, vc.name("vidx", Ite(okv, Sto(vidx, k, vcnt), vidx)))
 	st.setGlob(ck, vc.name("vcount", Ite(okv, Add(vcnt, I(1)), vcnt)))
+	if !ok {
+		// composite values (structs): keys are exact, the value is unknown
+		return &TupleV{E: []Val{okv, k, vc.freshVal(mt.Elem(), "rv")}}
+	}
 	v := vc.fresh("rv", vs)
 	vc.assert(Eq(v, Sel(Sel(va, m), k)))
 	vc.typeAssume(v, mt.Elem())
